@@ -117,3 +117,53 @@ pub mod shim {
         }
     }
 }
+
+/// Recording of the primitive memory accesses issued by the byte-copy helper of `volatile_memory`
+/// (`copy_single` and the bulk branch of `copy_slice`): one `(width, src, dst)` entry per access;
+/// the bulk `copy_nonoverlapping` branch is recorded with width 0 and its total in `bulk`.
+pub mod access {
+    use std::cell::RefCell;
+
+    /// One primitive access.
+    #[derive(Clone, Copy, Debug)]
+    pub struct Access {
+        /// Width in bytes of the single volatile read + write; 0 for the bulk copy.
+        pub width: usize,
+        /// Source address.
+        pub src: usize,
+        /// Destination address.
+        pub dst: usize,
+        /// Number of bytes moved by the bulk copy (0 for single accesses).
+        pub bulk: usize,
+    }
+
+    thread_local! {
+        static LOG: RefCell<Option<Vec<Access>>> = const { RefCell::new(None) };
+    }
+
+    /// Starts recording on the current thread.
+    pub fn start() {
+        LOG.with(|l| *l.borrow_mut() = Some(Vec::new()));
+    }
+
+    /// Stops recording and returns what was recorded.
+    pub fn take() -> Vec<Access> {
+        LOG.with(|l| l.borrow_mut().take().unwrap_or_default())
+    }
+
+    pub(crate) fn single(width: usize, src: usize, dst: usize) {
+        LOG.with(|l| {
+            if let Some(v) = l.borrow_mut().as_mut() {
+                v.push(Access { width, src, dst, bulk: 0 });
+            }
+        });
+    }
+
+    pub(crate) fn bulk(total: usize, src: usize, dst: usize) {
+        LOG.with(|l| {
+            if let Some(v) = l.borrow_mut().as_mut() {
+                v.push(Access { width: 0, src, dst, bulk: total });
+            }
+        });
+    }
+}
